@@ -29,7 +29,8 @@ TEXT = {
             "Trusted: Kani/CBMC, verif_shim HashSet (capacity 4, self-tested against std). Production ids (WorkId/AnyWorkId) are not the verified instantiation."),
     "C03": ("fontc-owned arithmetic only, bounded: (a) z3 and cvc5 prove for every enumerated master layout that the real deltas_with_rounding::<P,V>/interpolate_from_deltas::<V>, instantiated with a 2-D "
             "point/vector pair as gvar uses them, reproduce every master within 0.5 per coordinate with rounding (exactly without; exactly at the default for integer masters) for ALL master values; "
-            "(b) CBMC proves that component offsets are rounded half-up exactly or rejected, and that composite deltas are zero-optional and never altered beyond rounding inside the 16-bit range. "
+            "(b) CBMC proves that component offsets are rounded half-up exactly or rejected, that composite deltas are zero-optional and never altered beyond rounding inside the 16-bit range, and that "
+            "fontir's consistency guard reports a composite as consistent exactly when base and all four 2x2 coefficients agree at every master (so a 2x2 that varies is decomposed, not frozen). "
             "Simple-glyph outlines (kurbo cu2qu, write-fonts point streams and IUP) are not covered.",
             "Trusted: z3+cvc5 agreement, Sym recorder (validated against f64 runs), Kani/CBMC. Layouts are enumerated (catalog + grids), values solved."),
     "C04": ("Kernel-level, bounded: (a) z3 and cvc5 prove for every enumerated master layout that the real deltas_with_rounding/interpolate_from_deltas (the arithmetic HVAR/VVAR/MVAR deltas are computed with) "
@@ -49,7 +50,8 @@ TEXT = {
             "The avar/fvar tables themselves (fontbe::avar::to_segment_map) did not fit CBMC and are NOT covered.",
             "Trusted: Kani/CBMC, insertion-sort model of slice::sort. Design-side selection logic is covered on a catalog of shapes only."),
     "C10": ("Kernel-level, bounded: CBMC proves that AnchorKind::new classifies every 3-byte name over {_,a,0,1,2} as the ufo2ft rules (written out independently) say, that _g, g and g_N carry the same group name, "
-            "and the caret/cursive names. Anchor coordinates, propagation, mark groups, lookups and GDEF are not covered.",
+            "the caret/cursive names, and that anchors inherited from a mirrored component are renamed (top<->bottom, left<->right, entry<->exit) exactly when mirrored on that axis. "
+            "Anchor coordinates, the rest of propagation, mark groups, lookups and GDEF are not covered.",
             "Trusted: Kani/CBMC; std str::parse/strip_prefix/rsplit_once and SmolStr are executed, not modelled."),
     "C13": ("Token-stream level, bounded: CBMC proves for every window of N ASCII bytes (N = 3, 4; 5 thorough), and for a 2-byte char between ASCII bytes, from every lexer state, that every token consumes input, "
             "token lengths sum to the window, Eof is produced only at the end, token boundaries are char boundaries, and the loop terminates within N+1 tokens without panic. The parser, the tree sink, include "
@@ -65,6 +67,7 @@ TEXT = {
             "OS/2 summaries are assembled in job bodies and are not covered.",
             "Trusted: Kani/CBMC."),
     "C19": ("Harnessed narrowing sites only, bounded by value range (full f64 / full integer ranges), overflow and panic checks ON: component offsets are rejected or exact; component scales in [-2,2] are within half a 2.14 step; "
+            "fontir's overflow guard requests decomposition exactly for 2x2 coefficients outside [-2,2]; user coordinates are stored to the nearest 16.16 step; "
             "composite deltas and use-my-metrics comparisons are exact inside the 16-bit range; MetricsBuilder::update cannot overflow; every OS/2 metric field is the half-up rounding of its own metric; "
             "WidthClass::try_from is total. Two genuine defects outside the repaired ones are carried as known findings (deltas and advances beyond 16 bits saturate). "
             "The evidence lists every narrowing site of fontbe/fontir/fontdrasil and whether it is harnessed; sites in job bodies are outside the claim.",
